@@ -1249,7 +1249,7 @@ def run(ctx):
             malformed = rng.random() < 0.15
             one(gen_case(rng, malformed), dist, malformed)
         # ---- histories built around repetition and re-registration
-        for n in range((8000 if thorough else 300) * ctx.scale):
+        for n in range((6000 if thorough else 300) * ctx.scale):
             one(gen_history(rng), hist)
         # ---- the order word: the model's is_descending against what the implementation does
         if m:
